@@ -7,6 +7,7 @@ import (
 	"math"
 	"os"
 	"sort"
+	"strconv"
 	"strings"
 	"time"
 
@@ -761,6 +762,26 @@ func runC08(c *ev.Ctx) {
 		}
 		groups = append(groups, g)
 	}
+	// a self-testing source: its first Read runs a whole PeriodDetectFast of its own before serving bytes
+	for _, fname := range []string{"PeriodFast", "PowerOnFast"} {
+		w := workflows[fname]
+		r := gen.NewRng(gen.Mix(seed, 8133, uint64(w.B)))
+		m := baseMatrix(r, w.S, w.Items)
+		for i := 0; i < w.Items; i++ {
+			setPassCount(r, m, i, oracle.Threshold(w.S))
+		}
+		st := Stream{Kind: "matrix", Seed: r.U64(), Matrix: m, Tail: "fail"}
+		g := &c08Group{wf: fname, stream: st}
+		id++
+		g.seqID = id
+		scns = append(scns, Scn{ID: id, WF: w.Seq, Stream: st, Stub: true, Chunk: mon.ChunkPlan{Kind: "whole"}, Source: "nestedfast", Note: "sequential reference: source that runs a Fast detection of its own inside Read"})
+		for k := 0; k < 2; k++ {
+			id++
+			scns = append(scns, Scn{ID: id, WF: fname, Stream: st, Stub: true, Chunk: mon.ChunkPlan{Kind: "whole"}, Source: "nestedfast", Procs: procs[k+1], Note: fmt.Sprintf("source that runs a Fast detection of its own inside Read rep%d", k)})
+			g.fast = append(g.fast, id)
+		}
+		groups = append(groups, g)
+	}
 	// a slow device: 60-120 ms per Read, a run lasts seconds; verdicts must not depend on elapsed time
 	for _, fname := range []string{"PeriodFast", "PowerOnFast"} {
 		w := workflows[fname]
@@ -976,7 +997,7 @@ func runC09(c *ev.Ctx) {
 	kinds := []struct {
 		k      string
 		sticky bool
-	}{{"eof", true}, {"ueof", true}, {"custom", true}, {"partial", true}, {"eof", false}, {"ueof", false}, {"custom", false}, {"partial", false}, {"temporary", false}, {"eagain", false}, {"temporary", true}}
+	}{{"eof", true}, {"ueof", true}, {"custom", true}, {"partial", true}, {"eof", false}, {"ueof", false}, {"custom", false}, {"partial", false}, {"temporary", false}, {"eagain", false}, {"temporary", true}, {"eintr", true}, {"eintr", false}, {"wrapped-eintr", true}, {"wrapped-eintr", false}}
 	nSeeded := 30
 	if c.Thorough() {
 		nSeeded = 400
@@ -1364,7 +1385,7 @@ func runC10(c *ev.Ctx) {
 		r := gen.NewRng(gen.Mix(seed, 1013))
 		sizes := []int{8000000, 1<<25 - 1, 1 << 25, 1<<25 + 12345}
 		if c.Thorough() {
-			sizes = append(sizes, 5000000, 40<<20, 1<<26+1)
+			sizes = append(sizes, 5000000, 40<<20, 1<<26+1, 1<<30+4096)
 		}
 		for _, nb := range sizes {
 			st := Stream{Kind: "prng", Seed: r.U64(), Tail: "random", Extra: 4096}
@@ -1653,6 +1674,11 @@ func runC14(c *ev.Ctx) {
 	hugeNB := []int{200000000, 1 << 28}
 	if c.Thorough() {
 		hugeNB = append(hugeNB, 189812532, 1<<27, 1<<28+1, 300000000)
+		if strconv.IntSize == 64 {
+			// requests beyond 2^32 bytes: byte counts no longer fit 32-bit counters
+			four := int64(1) << 32
+			hugeNB = append(hugeNB, int(four), int(four+1<<27))
+		}
 	}
 	for _, nb := range hugeNB {
 		for _, b := range []int{0x00, 0xFF} {
@@ -1685,7 +1711,7 @@ func runC14(c *ev.Ctx) {
 	}()
 	hsch := make(chan map[int]*Res, 1)
 	go func() {
-		hsch <- runScenarios(heavySingles, runOpts{Parallel: 2, PerScn: 30 * time.Second, Label: "c14s"})
+		hsch <- runScenarios(heavySingles, runOpts{Parallel: 2, PerScn: 180 * time.Second, Label: "c14s"})
 	}()
 	hch := make(chan map[int]*Res, 1)
 	go func() {
